@@ -336,3 +336,6 @@ def rules(ctx):
     ctx.floor("C01.gauss-deadstore", 40)
     ctx.floor("C01.gauss-coverage", 14)
     ctx.floor("C01.gauss-mirror", 14)
+    from . import common_backend as _B
+    _B.polar_pair(ctx, "C01.polar", ("backends/fockbackend/circuit.py", "compilers/gaussian_unitary.py", "ops.py"))
+    ctx.floor("C01.polar", 1)
